@@ -160,11 +160,13 @@ def _struct_case(arg):
     res.nontrivial()
     f = np.exp(-0.5 * np.sum((pts - coords[0]) ** 2, axis=1)) + 0.1 * pts[:, 2]
     checks = [
-        ("points-not-concatenation", np.array_equal(np.asarray(mg.points), pts)),
+        # (1e-13 relative: the two default-radial-grid code paths multiply / divide the unit constant in a
+        # different order, one ulp apart)
+        ("points-not-concatenation", np.asarray(mg.points).shape == pts.shape and np.allclose(np.asarray(mg.points), pts, rtol=1e-13, atol=1e-300)),
         ("index-table", np.array_equal(np.asarray(mg.indices), idx)),
-        ("atweights-not-atomic-weights", np.array_equal(np.asarray(mg.atweights), atw)),
-        ("aim-weights", np.allclose(np.asarray(mg.aim_weights), aimw, rtol=0, atol=1e-14)),
-        ("weights-not-atomic-times-aim", np.allclose(np.asarray(mg.weights), atw * aimw, rtol=1e-14, atol=1e-300)),
+        ("atweights-not-atomic-weights", np.asarray(mg.atweights).shape == atw.shape and np.allclose(np.asarray(mg.atweights), atw, rtol=1e-12, atol=1e-300)),
+        ("aim-weights", np.allclose(np.asarray(mg.aim_weights), aimw, rtol=0, atol=1e-12)),
+        ("weights-not-atomic-times-aim", bool(np.all(np.abs(np.asarray(mg.weights) - atw * aimw) <= 1e-12 * np.abs(atw) + 1e-300))),
         ("atcoords", np.array_equal(np.asarray(mg.atcoords), coords)),
         ("size", mg.size == len(pts)),
     ]
@@ -183,17 +185,17 @@ def _struct_case(arg):
         res.count(2)
         ga = mg.get_atomic_grid(a)
         lo, hi = idx[a], idx[a + 1]
-        if not (np.array_equal(np.asarray(ga.points), pts[lo:hi]) and np.array_equal(np.asarray(ga.weights), atw[lo:hi])
+        if not (np.allclose(np.asarray(ga.points), pts[lo:hi], rtol=1e-13, atol=1e-300) and np.allclose(np.asarray(ga.weights), atw[lo:hi], rtol=1e-12, atol=1e-300)
                 and np.array_equal(np.asarray(ga.center), coords[a])):
             res.violation(f"{tag}:get_atomic_grid-differs", f"{cfg}: get_atomic_grid({a}) is not atom {a}'s grid (points, atomic "
                           f"weights, centre)", dict(case, atom=a))
         gi = mg[a]
-        same_pts = np.array_equal(np.asarray(gi.points), pts[lo:hi])
+        same_pts = np.asarray(gi.points).shape == pts[lo:hi].shape and np.allclose(np.asarray(gi.points), pts[lo:hi], rtol=1e-13, atol=1e-300)
         w_item = np.asarray(gi.weights)
         if not same_pts:
             res.violation(f"{tag}:getitem-points-differ", f"{cfg}: grid[{a}] points are not atom {a}'s points", dict(case, atom=a))
-        is_aim = np.allclose(w_item, (atw * aimw)[lo:hi], rtol=1e-14, atol=1e-300)
-        is_raw = np.array_equal(w_item, atw[lo:hi])
+        is_aim = bool(np.all(np.abs(w_item - (atw * aimw)[lo:hi]) <= 1e-12 * np.abs(atw[lo:hi]) + 1e-300))
+        is_raw = np.allclose(w_item, atw[lo:hi], rtol=1e-12, atol=1e-300)
         if not (is_aim or is_raw):
             res.violation(f"{tag}:getitem-weights-neither-atomic-nor-molecular", f"{cfg}: grid[{a}] weights", dict(case, atom=a))
     res.sample(case)
